@@ -35,6 +35,94 @@ impl Case {
 
 pub const PANIC: u64 = 999_999_999;
 
+/// Counting global allocator: bytes requested while a case executes (C11: a decoder allocates no
+/// more than a fixed bound beyond the input size).  A single request above 4 GiB cannot be served:
+/// the case being executed is printed and the process exits with status 97.
+pub mod meter {
+    use std::alloc::{GlobalAlloc, Layout, System};
+    use std::sync::atomic::{AtomicBool, AtomicPtr, AtomicU64, AtomicUsize, Ordering::Relaxed};
+    pub struct Counting;
+    static ACTIVE: AtomicBool = AtomicBool::new(false);
+    static TOTAL: AtomicU64 = AtomicU64::new(0);
+    static LAST: AtomicU64 = AtomicU64::new(0);
+    static CASE_PTR: AtomicPtr<u8> = AtomicPtr::new(std::ptr::null_mut());
+    static CASE_LEN: AtomicUsize = AtomicUsize::new(0);
+    const BOMB: usize = 1 << 32;
+
+    fn bomb(size: usize) -> ! {
+        use std::io::Write;
+        ACTIVE.store(false, Relaxed);
+        let p = CASE_PTR.load(Relaxed);
+        let n = CASE_LEN.load(Relaxed);
+        let case: &[u8] = if p.is_null() { b"?" } else { unsafe { std::slice::from_raw_parts(p, n) } };
+        let mut e = std::io::stderr().lock();
+        let _ = e.write_all(b"ALLOC-BOMB size=");
+        let _ = e.write_all(size.to_string().as_bytes());
+        let _ = e.write_all(b" case=");
+        let _ = e.write_all(case);
+        let _ = e.write_all(b"\n");
+        std::process::exit(97)
+    }
+
+    unsafe impl GlobalAlloc for Counting {
+        unsafe fn alloc(&self, l: Layout) -> *mut u8 {
+            if ACTIVE.load(Relaxed) {
+                TOTAL.fetch_add(l.size() as u64, Relaxed);
+                if l.size() > BOMB {
+                    bomb(l.size());
+                }
+            }
+            System.alloc(l)
+        }
+        unsafe fn alloc_zeroed(&self, l: Layout) -> *mut u8 {
+            if ACTIVE.load(Relaxed) {
+                TOTAL.fetch_add(l.size() as u64, Relaxed);
+                if l.size() > BOMB {
+                    bomb(l.size());
+                }
+            }
+            System.alloc_zeroed(l)
+        }
+        unsafe fn dealloc(&self, p: *mut u8, l: Layout) {
+            System.dealloc(p, l)
+        }
+        unsafe fn realloc(&self, p: *mut u8, l: Layout, new_size: usize) -> *mut u8 {
+            if ACTIVE.load(Relaxed) {
+                TOTAL.fetch_add(new_size.saturating_sub(l.size()) as u64, Relaxed);
+                if new_size > BOMB {
+                    bomb(new_size);
+                }
+            }
+            System.realloc(p, l, new_size)
+        }
+    }
+
+    /// run `f` with the meter on; `case` is what a bomb report prints
+    pub fn measured<T>(case: &str, f: impl FnOnce() -> T) -> T {
+        CASE_PTR.store(case.as_ptr() as *mut u8, Relaxed);
+        CASE_LEN.store(case.len(), Relaxed);
+        TOTAL.store(0, Relaxed);
+        ACTIVE.store(true, Relaxed);
+        let r = f();
+        ACTIVE.store(false, Relaxed);
+        LAST.store(TOTAL.load(Relaxed), Relaxed);
+        CASE_PTR.store(std::ptr::null_mut(), Relaxed);
+        r
+    }
+    pub fn stop() {
+        ACTIVE.store(false, Relaxed);
+        LAST.store(TOTAL.load(Relaxed), Relaxed);
+        CASE_PTR.store(std::ptr::null_mut(), Relaxed);
+    }
+    /// bytes requested from the allocator during the last measured execution
+    pub fn last() -> u64 {
+        LAST.load(Relaxed)
+    }
+}
+
+#[global_allocator]
+static GLOBAL: meter::Counting = meter::Counting;
+
 pub fn b2a(bs: &[u8]) -> Vec<u64> {
     bs.iter().map(|b| *b as u64).collect()
 }
@@ -102,7 +190,10 @@ fn json_escape(s: &str) -> String {
 
 pub fn run_exec(f: u32, args: &Args) -> Args {
     let a = args.clone();
-    match std::panic::catch_unwind(move || suites::exec(f, &a)) {
+    let case = format!("{} {}", f, args_str(args));
+    let r = std::panic::catch_unwind(move || meter::measured(&case, || suites::exec(f, &a)));
+    meter::stop();
+    match r {
         Ok(v) => v,
         Err(_) => vec![vec![PANIC]],
     }
